@@ -464,4 +464,17 @@ theorem LQ.step_ok (cfg : Config R) (hfx : cfg.fx = Fixes.repaired) (hw : 0 < cf
 
 end lqstep
 
+
+/-! ## an empty frame through `add_new_tracks` changes nothing -/
+
+theorem FW.init_nil {R φ : Type} [LT R] [DecidableLT R] (cfg : Config R) (s : FW φ) :
+    FW.init cfg s [] = (s, []) := by
+  cases s
+  simp [FW.init, allocate]
+
+theorem LQ.init_nil {R φ : Type} [LT R] [DecidableLT R] (cfg : Config R) (s : LQ φ) :
+    LQ.init cfg s [] = (s, []) := by
+  cases s
+  simp [LQ.init, allocate, appendNew]
+
 end SleapVerif.Tracker
